@@ -251,7 +251,7 @@ def s5_loop(ctx, RL):
     t = r.s(st)
     loopvar = [v['name'] for v in walk(RL.loop.get('init')) if v.get('k') == 'var']
     lv = 'l:' + loopvar[0] if loopvar else '?'
-    want_skip = '(var skipped (call %s::Skip on f:Teakra::Interpreter::core_timing (- (- $0 %s) 1)))' % (CT, lv)
+    want_skip = '(var skipped (call %s::Skip on f:Teakra::Interpreter::core_timing (sum $0 | 1 %s)))' % (CT, lv)    # cycles - i - 1, linear form
     sk = [v['name'] for v in walk(st) if v.get('k') == 'var']
     ws = want_skip.replace('skipped', sk[0]) if sk else want_skip
     ok = ws in t and '(+= %s l:%s)' % (lv, sk[0] if sk else '?') in t \
